@@ -251,7 +251,8 @@ fn random_shard(ctx: &Ctx, ifaces: &[&'static IfaceDesc], shard: usize, cases: u
         let mut msgs: Vec<Vec<u8>> = Vec::new();
         let mut structured = true;
         let mut has_nl = false;
-        for _ in 0..rng.range(1, 5) {
+        let n_msgs = if rng.chance(1, 30) { rng.range(30, 90) } else { rng.range(1, 5) };
+        for _ in 0..n_msgs {
             if kind == 3 {
                 // arbitrary bytes over the class alphabet
                 let len = rng.range(1, 12);
@@ -275,7 +276,9 @@ fn random_shard(ctx: &Ctx, ifaces: &[&'static IfaceDesc], shard: usize, cases: u
         }
         let stream: Vec<u8> = msgs.concat();
         let ns = (iface.ns)();
-        let n = *rng.pick(&ns);
+        // long streams go to the large buffers (offsets beyond 255 / 65535 need them)
+        let big: Vec<usize> = ns.iter().copied().filter(|n| *n >= 256).collect();
+        let n = if stream.len() > 400 && !big.is_empty() { *rng.pick(&big) } else { *rng.pick(&ns) };
         par::case_begin(&stream, [shard as u64, case, n as u64, 0]);
         let (reference, _) = match run_ref(iface, &stream, n) {
             Some(r) => r,
